@@ -15,7 +15,7 @@ func init() {
 	property("C12",
 		"Static conformance of poryswitch selection: (a) every selector returns, for each case map, the entry under the -s value when that key is present and otherwise the entry under '_' (presence decided by the comma-ok bit, not by the value), parallel maps with the same key sequence, and fails under enableEnvironmentErrors when neither exists; (b) the header takes the value from compileSwitches[identifier] and errors for missing switches only under enableEnvironmentErrors; (c) parsing the cases can write only the token window, the scope stacks and the font cache of the Parser — nothing an unselected case produced can reach the program except through the case map; (d) '-s K=V' splits at the first '='.",
 		[]string{"scheme argument of DESIGN §4 C12", "balanced scope stacks (C20.a)"},
-		"C12.a", "C12.b", "C12.c", "C12.d", "C09.d", "C06.c")
+		"C12.a", "C12.b", "C12.c", "C12.d", "C12.e", "C09.d", "C06.c")
 	property("C13",
 		"Static conformance of constant substitution: (a) every token literal that is accumulated into an argument, operand, comparison value, case value, table-entry field, mart item or constant value passes through tryReplaceWithConstant (the only exceptions are literal parentheses); (b) names (identifiers, labels, map script names, movement steps) and text are never passed through it; (c) a constant is stored only after the duplicate check, its value is scanned up to the next top-level keyword; (d) the helper is a pure lookup that returns its argument when the name is not a constant.",
 		[]string{"that textual and token-wise replacement coincide for multi-token values is not decided"},
@@ -29,6 +29,7 @@ func init() {
 	register(&Rule{ID: "C12.b", Doc: "poryswitch header: value from compileSwitches[ident]; environment errors only in normal mode", Floor: 3, Run: c12b})
 	register(&Rule{ID: "C12.c", Doc: "case parsing writes only token window, scope stacks, font cache", Floor: 3, Run: c12c})
 	register(&Rule{ID: "C12.d", Doc: "-s option splits at the first '='", Floor: 1, Run: c12d})
+	register(&Rule{ID: "C12.e", Doc: "colon-form cases take exactly one item: the item loop only repeats when multiple items are allowed", Floor: 3, Run: c12e})
 	register(&Rule{ID: "C13.a", Doc: "accumulated token literals pass through tryReplaceWithConstant", Floor: 12, Run: c13a})
 	register(&Rule{ID: "C13.b", Doc: "names and movement steps are never constant-substituted", Floor: 8, Run: c13b})
 	register(&Rule{ID: "C13.c", Doc: "constant definition: scan stops at top-level keywords", Floor: 2, Run: c13c})
@@ -714,5 +715,46 @@ func c14d(c *Ctx) {
 			}
 		})
 		c.Check(okIdent, fn.Name()+"/ident-appended", c.W.Pos(acc.Pos()), "an identifier token is appended to the list", "identifier tokens are not appended to the list")
+	}
+}
+
+// c12e: the item loops of the case-content parsers (statements, movement steps, mart
+// items) repeat only under their allowMultiple parameter (brace form); in the colon form the
+// loop is left after the first item, so the next case label is not swallowed.
+func c12e(c *Ctx) {
+	for _, name := range []string{"parser.Parser.parsePoryswitchStatements", "parser.parseMovementValue", "parser.parseMartValue"} {
+		fn := c.Fn(name)
+		if fn == nil {
+			continue
+		}
+		bp := -1
+		for i, p := range fn.Params {
+			if b, ok := p.Type().Underlying().(*types.Basic); ok && b.Kind() == types.Bool {
+				bp = i
+			}
+		}
+		var head *ssa.BasicBlock
+		for _, b := range fn.Blocks {
+			if isLoopHeader(b) && head == nil {
+				head = b
+			}
+		}
+		if bp < 0 || head == nil {
+			c.Bad(fn.Name()+"/shape", c.W.FuncPos(fn), "cannot find the allowMultiple parameter and the item loop")
+			continue
+		}
+		lit := fmt.Sprintf("+$%d", bp)
+		ok := true
+		n := 0
+		for _, p := range head.Preds {
+			if !head.Dominates(p) {
+				continue
+			}
+			n++
+			if !hasLit(c.edgeMust(fn, p, head), lit) {
+				ok = false
+			}
+		}
+		c.Check(ok && n > 0, fn.Name()+"/repeats-only-if-multiple", c.W.Pos(firstPos(head)), "the loop goes round again only when multiple items are allowed", "the item loop can repeat although only a single item is allowed (colon-form case): the following case label would be parsed as content of this case")
 	}
 }
